@@ -118,10 +118,25 @@ def directed(poll):
     out.append({"adj": {"threads": 2, "asyncore_use_poll": poll, "send_bytes": 64, "channel_request_lookahead": 1}, "sndbuf": 2048,
                 "conns": [{"requests": [{"n": 2049, "k": "fw"}, {"n": 5, "k": "raise0"}], "sndbuf": 2048, "pingpong": True},
                           {"requests": [{"n": 100, "k": "nocl", "w": 64}], "sndbuf": 2048}]})
+    # look-ahead: input is still being read (64 bytes at a time) while the worker finishes a response
+    # that stays above the watermark and, with more requests queued, waits at the end of service()
+    out.append({"adj": {"threads": 1, "asyncore_use_poll": poll, "channel_request_lookahead": 2, "send_bytes": 1,
+                        "outbuf_high_watermark": 256, "recv_bytes": 64}, "sndbuf": 512,
+                "conns": [{"requests": [{"n": 1500, "k": "cl"}, {"n": 10, "k": "cl"}, {"n": 20, "k": "cl"}], "sndbuf": 512}]})
     # two connections, two workers, a long poll on the first released by the second
     out.append({"adj": {"threads": 2, "asyncore_use_poll": poll, "send_bytes": 1}, "sndbuf": 2048,
                 "conns": [{"requests": [{"n": 100, "k": "cl", "gate": "peer"}, {"n": 10, "k": "cl"}], "sndbuf": 2048},
                           {"requests": [{"n": 50, "k": "cl"}, {"n": 600, "k": "write", "w": 100}], "sndbuf": 2048}]})
+    return out
+
+
+def service_window_scenarios():
+    out = []
+    for la in (1, 2):
+        out.append({"adj": {"threads": 1, "channel_request_lookahead": la, "send_bytes": 1, "outbuf_high_watermark": 256, "recv_bytes": 64},
+                    "sndbuf": 512,
+                    "conns": [{"requests": [{"n": 1500, "k": "cl"}, {"n": 10, "k": "cl"}, {"n": 20, "k": "cl"}],
+                               "sndbuf": 512, "pieces": [70, 140]}]})
     return out
 
 
@@ -135,10 +150,16 @@ def plan(tier, seed):
     for poll in (False, True):
         ds = directed(poll)
         if tier == "quick":
-            ds = [ds[0], ds[2], ds[6], ds[7], ds[-1]]
+            ds = [ds[0], ds[2], ds[6], ds[7], ds[-2], ds[-1]]
         for k, scn in enumerate(ds):
             for p in range(parts):
                 specs.append({"mode": "enum", "scn": scn, "part": p, "parts": parts, "cap": 700 if tier == "quick" else 6000})
+    # two pre-emptions: the I/O thread has just read more input (between recv() and the end of
+    # received()) when the worker takes over and reaches the end of its service() -- where it may wait
+    # for buffer space -- and then the I/O thread is let back in
+    for scn in (service_window_scenarios() if tier != "quick" else []):
+        for p in range(8):
+            specs.append({"mode": "enum2", "scn": scn, "part": p, "parts": 8, "window": 50 if tier == "quick" else 150})
     if tier != "quick":
         for s in range(30):
             for p in range(2):
@@ -255,6 +276,22 @@ def run_shard(spec):
             o, vs = run_one(acc, scn, strat, label)
             if len(acc.samples) < 1:
                 acc.sample({"scenario": scn, "strategy": strat, "end": o.reason, "steps": o.steps})
+    elif spec["mode"] == "enum2":
+        scn = spec["scn"]
+
+        def first(site, cur):
+            return isinstance(site, tuple) and site[0] in ("recv", "handle_read", "received", "sock")
+
+        def second(site):
+            return isinstance(site, tuple) and (site[0] in ("service", "_flush_outbufs_below_high_watermark") or site[0] in ("lock", "unlock"))
+
+        k = 0
+        for sw in runner.double_preemptions(scn, first, window=spec.get("window", 50), second="target", second_filter=second):
+            k += 1
+            if k % spec["parts"] != spec["part"]:
+                continue
+            run_one(acc, scn, {"kind": "forced", "switches": sw}, "forced2")
+        acc.sample({"double_preemption_scenario": scn, "schedules": k})
     else:
         scn = spec.get("scn") or gen_scenario(random.Random(spec["gen_seed"]))
         o = runner.run_scenario(scn, {"kind": "np"}, pilot=True)
